@@ -27,6 +27,8 @@ void res_finish(void) __attribute__((noreturn));
 void res_violation(const char *cls, const char *fmt, ...) __attribute__((format(printf, 2, 3)));
 void res_infra(const char *fmt, ...) __attribute__((format(printf, 1, 2), noreturn));
 int  res_nviol(void);
+void res_progress(long idx);   /* written to the parent immediately: survives a crash of the child */
+long res_last_progress(const run_res_t *r);
 
 /* parent-side helpers to walk result lines */
 const char *res_line(const run_res_t *r, char tag, int k);  /* k-th line starting with tag, without the "X " prefix; NULL if none. returned pointer valid until next call */
